@@ -347,7 +347,7 @@ class _Ambient:
             self.err = np.seterr(divide="raise", invalid="raise", over="raise")
             self.cw = warnings.catch_warnings()
             self.cw.__enter__()
-            warnings.simplefilter("error")
+            warnings.simplefilter("error", RuntimeWarning)        # numpy's floating-point warnings; other categories are left alone
         return self
 
     def __exit__(self, *exc):
